@@ -259,6 +259,18 @@ func (fr *Frame) storeTo(st *State, addr ssa.Value, t types.Type, v Value, pos t
 	p := a.(*Term)
 	fr.vc.check(st, "nil", "store:"+fr.label(addr), Not(Eq(p, TNil)), pos)
 	fr.frameCheck(st, p, t, fr.label(addr), pos)
+	if fr.freshLoops != nil {
+		if ins, ok := addr.(ssa.Instruction); ok {
+			if l := fr.loops.Inner[ins.Block()]; l != nil {
+				for m := l; m != nil; m = m.Parent {
+					if fr.freshLoops[m] {
+						fr.vc.oblige(st, "frame", "loop-store-to-fresh-object:"+fr.label(addr), nil, Le(IntLit(fr.entryAlloc), RootID(p)), pos)
+						break
+					}
+				}
+			}
+		}
+	}
 	if !initStore && messageValueType(t) && messageStore(addr) {
 		// ghost version counter of the XML message objects: serialisations taken at the same version are equal
 		st.Ghost["msgver"] = Add(st.ghost(fr.vc, "msgver"), IntLit(1))
@@ -769,6 +781,10 @@ func (fr *Frame) rangeNext(x *ssa.Next, st *State) Value {
 		return TupleV{ok, freshValue(tu.At(1).Type(), "next.k", fr.vc.allocN), freshValue(tu.At(2).Type(), "next.v", fr.vc.allocN)}
 	}
 	m := fr.get(r.X).(*Term)
+	if Eq(m, TNil) == TTrue {
+		// ranging over a nil map yields nothing
+		return TupleV{TFalse, zeroValue(mt.Key()), zeroValue(mt.Elem())}
+	}
 	kv := freshValue(mt.Key(), "next.k", fr.vc.allocN)
 	key := mapKeyTerm(kv)
 	cell := fr.mapCell(m, key)
